@@ -226,7 +226,7 @@ def _content_dir(sc, d):
     unchanged* files, as an experiment loop over one configuration file would do; older ones are pruned."""
     import hashlib
     import shutil
-    key = json.dumps({k: sc.get(k) for k in ('unit', 'explicit_unit', 'machines', 'machine_order', 'cluster_header', 'arrays', 'max_ingest',
+    key = json.dumps({k: sc.get(k) for k in ('unit', 'explicit_unit', 'machines', 'machine_order', 'cluster_header', 'pipeline_order', 'arrays', 'max_ingest',
                                              'hot', 'cold', 'obs', 'wfs')}, sort_keys=True)
     sub = os.path.join(d, 'cfg-' + hashlib.sha1(key.encode()).hexdigest()[:16])
     if os.path.isdir(sub) and os.path.exists(os.path.join(sub, 'cfg.json')):
@@ -268,6 +268,13 @@ def write_files(sc, d):
     if sc.get('machine_order'):
         resources = {m: sc['machines'][m] for m in sc['machine_order'] if m in sc['machines']}
         resources.update({m: v for m, v in sc['machines'].items() if m not in resources})
+    # the pipelines dictionary need not be in the order of the observation list, and may hold a pipeline no
+    # observation uses
+    po = sc.get('pipeline_order')
+    if po == 'reversed':
+        pipelines = dict(reversed(list(pipelines.items())))
+    elif po == 'extra':
+        pipelines = dict([('unusedpipeline', {'workflow': 'wf0.json', 'ingest_demand': 1})] + sorted(pipelines.items()))
     cfg = {'instrument': {'telescope': {'total_arrays': sc['arrays'],
                                         'max_ingest_resources': sc['max_ingest'],
                                         'pipelines': pipelines, 'observations': obs}},
